@@ -14,29 +14,64 @@ open Relic.Model Relic.Model.MulAlg
 
 variable {G : Type} [AddCommGroup G]
 
+
+/-- k mod n as a natural number, for n > 0 -/
+theorem toNat_emod (n : Nat) (hn0 : 0 < n) (k : ℤ) : (((k % n).toNat : ℕ) : ℤ) = k % n :=
+  Int.toNat_of_nonneg (Int.emod_nonneg _ (by omega))
+
+theorem toNat_emod_zsmul (p : G) (n : Nat) (hn0 : 0 < n) (hn : (n : ℤ) • p = 0) (k : ℤ) :
+    (((k % n).toNat : ℕ) : ℤ) • p = k • p := by
+  rw [toNat_emod n hn0, zsmul_emod p n hn]
+
+theorem two_pow_pred (w : Nat) (hw : 2 ≤ w) : 2 ^ (w - 1) = 2 * 2 ^ (w - 2) := by
+  rw [show w - 1 = (w - 2) + 1 by omega, Nat.pow_succ, Nat.mul_comm]
+
 /-- ep_mul_lwnaf / ep_mul_fix_lwnaf on plain curves: reduce k modulo n, recode in width-w NAF, table of odd
     multiples, signed left-to-right loop, final negation for k < 0 is inside `k % n`. Any integer k. -/
 theorem mul_lwnaf_correct (p : G) (n : Nat) (hn0 : 0 < n) (hn : (n : ℤ) • p = 0) (k : ℤ) (w : Nat) (hw : 2 ≤ w)
     (cap : Nat) (ds : List Int) (h : Rec.recNaf cap (k % n).toNat w = some ds) :
     mulSigned gops (tabOdd gops p (2 ^ (w - 2))) 0 ds = k • p := by
-  sorry
+  obtain ⟨hv, hd, _⟩ := Rec.recNaf_spec cap _ w hw ds h
+  obtain ⟨hlen, htab⟩ := tabOdd_spec p (2 ^ (w - 2))
+  rw [mulSigned_spec p _ (by rw [hlen]; exact htab) ds, hv, toNat_emod_zsmul p n hn0 hn]
+  intro d hdm
+  rw [hlen, ← two_pow_pred w hw]
+  exact hd d hdm
 
 /-- ep_mul_basic: binary NAF (w = 2) with the one-entry table [P], sign applied at the end -/
 theorem mul_basic_correct (p : G) (k : ℤ) (cap : Nat) (ds : List Int) (h : Rec.recNaf cap k.natAbs 2 = some ds) :
     (if k < 0 then -(mulSigned gops [p] 0 ds) else mulSigned gops [p] 0 ds) = k • p := by
-  sorry
+  obtain ⟨hv, hd, _⟩ := Rec.recNaf_spec cap _ 2 (le_refl _) ds h
+  have htab : ∀ i, i < [p].length → [p].getD i 0 = (2 * (i : ℤ) + 1) • p := by
+    intro i hi
+    have : i = 0 := by simpa using hi
+    subst this; simp
+  rw [mulSigned_spec p [p] htab ds (by simpa using hd), hv]
+  split
+  · rw [← neg_zsmul]; congr 1; omega
+  · congr 1; omega
 
 /-- ep_mul_slide: reduce modulo n, sliding windows of width w, table of odd multiples up to 2^w - 1 -/
 theorem mul_slide_correct (p : G) (n : Nat) (hn0 : 0 < n) (hn : (n : ℤ) • p = 0) (k : ℤ) (w : Nat) (hw : 1 ≤ w)
     (cap : Nat) (win : List Int) (h : Rec.recSlw cap (k % n).toNat w = some win) :
     mulSlide gops (tabOdd gops p (2 ^ (w - 1))) 0 win = k • p := by
-  sorry
+  obtain ⟨hv, hd, _⟩ := Rec.recSlw_spec cap _ w hw win h
+  obtain ⟨hlen, htab⟩ := tabOdd_spec p (2 ^ (w - 1))
+  rw [mulSlide_spec p _ (by rw [hlen]; exact htab) win, hv, toNat_emod_zsmul p n hn0 hn]
+  intro d hdm
+  rcases hd d hdm with h0 | ⟨h1, h2, h3⟩
+  · exact Or.inl h0
+  · refine Or.inr ⟨h1, h2, ?_⟩
+    rw [hlen, ← Nat.pow_succ', show (w - 1).succ = w by omega]
+    zify
+    rw [Int.toNat_of_nonneg (by omega)]
+    exact_mod_cast h3
 
 /-- ep_mul_monty: l = (k mod n) + n or + 2n, whichever has exactly bits(n) + 1 bits; ladder over its lower bits -/
 theorem mul_monty_correct (p : G) (n : Nat) (hn : (n : ℤ) • p = 0) (k : ℤ) (l : Nat) (hl : (l : ℤ) % n = k % n)
     (bits : List Bool) (hbits : (2 ^ bits.length + bitsVal bits : ℤ) = l) :
     mulLadder gops p bits = k • p := by
-  sorry
+  rw [mulLadder_spec, hbits, ← zsmul_emod p n hn l, hl, zsmul_emod p n hn k]
 
 /-- ep_mul_lwreg on plain curves (after the repair): regular recoding of (|k| mod n) | 1, parity correction,
     sign applied at the end -/
@@ -45,32 +80,78 @@ theorem mul_lwreg_correct (p : G) (n : Nat) (hn0 : 0 < n) (hn : (n : ℤ) • p 
     (h : Rec.recReg cap ((k.natAbs % n) ||| 1) nb w = some reg) :
     let r := mulReg gops (tabOdd gops p (2 ^ (w - 2))) 0 w reg ((k.natAbs % n) % 2 = 0) p
     (if k < 0 then -r else r) = k • p := by
-  sorry
+  intro r
+  have hor : (k.natAbs % n) ||| 1 = k.natAbs % n + (if (k.natAbs % n) % 2 = 0 then 1 else 0) := by
+    have e1 : ((k.natAbs % n) ||| 1) / 2 = (k.natAbs % n) / 2 := by rw [Nat.or_div_two]; simp
+    have e2 : ((k.natAbs % n) ||| 1) % 2 = 1 := by rw [Nat.or_mod_two_eq_one]; simp
+    split <;> omega
+  have hlt : k.natAbs % n < n := Nat.mod_lt _ hn0
+  obtain ⟨hv, hd⟩ := recReg_digits cap _ nb w (by omega) (by rw [hor]; split <;> omega)
+    (by rw [hor]; split <;> omega) reg h
+  obtain ⟨hlen, htab⟩ := tabOdd_spec p (2 ^ (w - 2))
+  have hr : r = ((k.natAbs % n : ℕ) : ℤ) • p := by
+    show mulReg gops _ 0 w reg _ p = _
+    rw [mulReg_spec p _ (by rw [hlen]; exact htab) w reg
+      (by intro d hdm; rw [hlen, ← two_pow_pred w (by omega)]; exact hd d hdm), hv, hor]
+    congr 1
+    by_cases h2 : (k.natAbs % n) % 2 = 0 <;> simp [h2]
+  have hmod : ((k.natAbs % n : ℕ) : ℤ) • p = (k.natAbs : ℤ) • p := by
+    rw [Int.natCast_mod, zsmul_emod p n hn]
+  rw [hr, hmod]
+  split
+  · rw [← neg_zsmul]; congr 1; omega
+  · congr 1; omega
 
 /-- ep_mul_fix_basic: precomputed 2^i·P, one addition per set bit of k mod n -/
 theorem mul_fix_basic_correct (p : G) (n : Nat) (hn0 : 0 < n) (hn : (n : ℤ) • p = 0) (k : ℤ) (nb : Nat) (hnb : n < 2 ^ nb) :
     mulFixBasic gops (tabPow2 gops p nb) 0 (k % n).toNat = k • p := by
-  sorry
+  rw [mulFixBasic_spec p nb _ _, toNat_emod_zsmul p n hn0 hn]
+  have h1 : (k % n) < n := Int.emod_lt_of_pos _ (by omega)
+  have h2 := toNat_emod n hn0 k
+  omega
 
 /-- ep_mul_sim_trick: both scalars reduced modulo n, fixed windows of width w, table of i·P + j·Q -/
 theorem mul_sim_trick_correct (p q : G) (n : Nat) (hn0 : 0 < n) (hp : (n : ℤ) • p = 0) (hq : (n : ℤ) • q = 0) (k m : ℤ) (w : Nat) (hw : 0 < w)
     (cap : Nat) (w0 w1 : List Int) (hk : 0 < (k % n).toNat) (hm : 0 < (m % n).toNat)
     (h0 : Rec.recWin cap (k % n).toNat w = some w0) (h1 : Rec.recWin cap (m % n).toNat w = some w1) :
     simTrick gops (tabTrick gops p q w) 0 w w0 w1 = k • p + m • q := by
-  sorry
+  obtain ⟨hv0, hd0, _⟩ := Rec.recWin_spec cap _ w hw hk w0 h0
+  obtain ⟨hv1, hd1, _⟩ := Rec.recWin_spec cap _ w hw hm w1 h1
+  rw [simTrick_spec p q w w0 w1 hd0 hd1, hv0, hv1, toNat_emod_zsmul p n hn0 hp, toNat_emod_zsmul q n hn0 hq]
 
 /-- ep_mul_sim_inter (plain curves): two width-w NAFs interleaved -/
 theorem mul_sim_inter_correct (p q : G) (n : Nat) (hn0 : 0 < n) (hp : (n : ℤ) • p = 0) (hq : (n : ℤ) • q = 0) (k m : ℤ) (w : Nat) (hw : 2 ≤ w)
     (cap : Nat) (n0 n1 : List Int)
     (h0 : Rec.recNaf cap (k % n).toNat w = some n0) (h1 : Rec.recNaf cap (m % n).toNat w = some n1) :
     simInter gops (tabOdd gops p (2 ^ (w - 2))) (tabOdd gops q (2 ^ (w - 2))) 0 n0 n1 = k • p + m • q := by
-  sorry
+  obtain ⟨hv0, hd0, _⟩ := Rec.recNaf_spec cap _ w hw n0 h0
+  obtain ⟨hv1, hd1, _⟩ := Rec.recNaf_spec cap _ w hw n1 h1
+  obtain ⟨hlen0, htab0⟩ := tabOdd_spec p (2 ^ (w - 2))
+  obtain ⟨hlen1, htab1⟩ := tabOdd_spec q (2 ^ (w - 2))
+  rw [simInter_spec p q _ _ (by rw [hlen0]; exact htab0) (by rw [hlen1]; exact htab1) n0 n1, hv0, hv1,
+    toNat_emod_zsmul p n hn0 hp, toNat_emod_zsmul q n hn0 hq]
+  · intro d hdm
+    rw [hlen0, ← two_pow_pred w hw]
+    exact hd0 d hdm
+  · intro d hdm
+    rw [hlen1, ← two_pow_pred w hw]
+    exact hd1 d hdm
 
 /-- ep_mul_sim_joint: joint sparse form of (k mod n, m mod n) -/
 theorem mul_sim_joint_correct (p q : G) (n : Nat) (hn0 : 0 < n) (hp : (n : ℤ) • p = 0) (hq : (n : ℤ) • q = 0) (k m : ℤ)
     (cap : Nat) (j0 j1 : List Int) (h : Rec.recJsf cap (k % n).toNat (m % n).toNat = some (j0, j1)) :
     simJoint gops p q j0 j1 = k • p + m • q := by
-  sorry
+  obtain ⟨hv0, hv1, hd0, hd1, _⟩ := Rec.recJsf_spec cap _ _ j0 j1 h
+  have hsign : ∀ (l : List ℤ), (∀ d ∈ l, d.natAbs ≤ 1) → l.map Int.sign = l := by
+    intro l hl
+    conv_rhs => rw [← List.map_id l]
+    apply List.map_congr_left
+    intro d hdm
+    have := hl d hdm
+    have : d = -1 ∨ d = 0 ∨ d = 1 := by omega
+    rcases this with rfl | rfl | rfl <;> rfl
+  rw [simJoint_spec, hsign j0 hd0, hsign j1 hd1, hv0, hv1, toNat_emod_zsmul p n hn0 hp,
+    toNat_emod_zsmul q n hn0 hq]
 
 /-- non-vacuity: the loops run on the integers (an additive commutative group) -/
 example : mulSigned (gops : Ops ℤ) (tabOdd gops 1 4) 0 [7, 0, 0, 0, 0, -5] = -153 := by decide
